@@ -851,8 +851,20 @@ pub fn run_once(rc: &RunCfg, replay: Option<Vec<u8>>) -> RunResult {
     if !c.stale_unlinks.is_empty() {
         shapes.push(format!("stale-unlinks:{:?}", c.stale_unlinks.iter().map(|(t, p, n)| (*t, p - c.base, n - c.base)).collect::<Vec<_>>()));
     }
+    // second root cause visible in the trace: a thread marked a node that was not in the list (popped, being
+    // re-inserted), its unlink CAS succeeded all the same and wrote a stale successor into the list: that
+    // successor (an allocated, marked node) is what the list is stuck on, or is linked twice
+    let stale_mark_cause = c.stale_mark_unlinks.iter().any(|(_, _, _, next)| {
+        let a = c.base + *next as usize;
+        stuck_nodes.contains(&a) || dup_nodes.contains(&a)
+    });
+    if !c.stale_mark_unlinks.is_empty() {
+        shapes.push(format!("unlinks-after-marking-an-unlinked-node:{:?}", c.stale_mark_unlinks.iter().map(|(t, p, n, x)| (*t, p.wrapping_sub(c.base), n - c.base, *x)).collect::<Vec<_>>()));
+    }
     let stuck_shape = if stale_cause {
         "unlinked-from-stale-predecessor"
+    } else if stale_mark_cause {
+        "relinked-by-unlink-after-marking-an-unlinked-node"
     } else if cyclic {
         "free-list-cycle"
     } else if stuck_states.iter().any(|v| *v == "unlink-failed" || *v == "marked") {
@@ -1033,6 +1045,19 @@ pub fn list_contention_cfg(rng: &mut Rng, seed: u64, run: u64) -> RunCfg {
         }
         programs.push(p);
     }
+    // one run in four: discard_freelist races with the takers and givers (inserted afterwards, so that the
+    // PRNG stream — and with it every other run — stays as it was)
+    if run % 4 == 3 {
+        for (t, p) in programs.iter_mut().enumerate() {
+            let n = p.len();
+            if n >= 6 {
+                p.insert(2 * n / 3, POp::DiscardFreelist);
+                if t % 2 == 0 {
+                    p.insert(n / 3, POp::DiscardFreelist);
+                }
+            }
+        }
+    }
     RunCfg {
         freelist: if rng.below(4) == 0 { FL::Optimistic } else { FL::Pessimistic },
         unify: rng.bool(),
@@ -1142,7 +1167,7 @@ fn report_run(out: &mut Out, prop: &str, rc: &RunCfg, r: &RunResult, extra_args:
         d.set("free_list_at_hang", r.freelist_after.clone());
         let first = r.stuck_shape.split(' ').next().unwrap_or("").to_string();
         let shape = match first.as_str() {
-            "mark-not-undone-after-failed-unlink" | "unlinked-from-stale-predecessor" | "unlink-succeeded-but-still-linked" => format!("removed-node-linked:{}", first),
+            "mark-not-undone-after-failed-unlink" | "unlinked-from-stale-predecessor" | "relinked-by-unlink-after-marking-an-unlinked-node" | "unlink-succeeded-but-still-linked" => format!("removed-node-linked:{}", first),
             "polling-a-node-that-is-no-longer-linked" | "free-list-cycle" => first.clone(),
             _ => "other".to_string(),
         };
